@@ -259,6 +259,7 @@ static uint64_t run_history(seqx::Runner &R, bool coro_mode, const std::vector<i
         if (cocls::coro_queue::is_active()) R.fail("sp/queue-left-active", "coro_queue still active after the outermost activation returned");
     }
     if (!R.case_fail && seqx::live_allocs() != base) R.fail("sp/allocation-balance", "%ld allocations not released (leaked frame or handle array)", (long)(seqx::live_allocs() - base));
+    R.outcome(key);
     R.end(!h.empty());
     return key;
 }
